@@ -859,6 +859,12 @@ def parseOp (s : String) : Op :=
   | ["reopen"] => .reopen
   | _ => .bad
 
+/-- ops that stay inside one `TrieDB` session (no `Hash()`, no new instance) -/
+def Op.inSession : Op → Bool
+  | .commit => false
+  | .reopen => false
+  | _ => true
+
 def Op.isBad : Op → Bool
   | .bad => true
   | _ => false
